@@ -5,6 +5,7 @@ import (
 
 	"github.com/buildbuildio/pebbles/common"
 	"github.com/buildbuildio/pebbles/planner"
+	"github.com/vektah/gqlparser/v2/ast"
 )
 
 // findNextExecutionRequests inspects queryResult of current step and decides which requests need to be executed next on metadata inside step.Then.
@@ -52,7 +53,7 @@ func findNextExecutionRequestsWithCache(
 		if !ok {
 			insertPoints, err = findInsertionPoints(
 				dependent.InsertionPoint,
-				step.SelectionSet,
+				answerSelectionSet(step),
 				queryResult,
 				[][]string{insertionPoint},
 				withID,
@@ -90,7 +91,7 @@ func findNextExecutionRequestsAsync(
 		func(field *planner.QueryPlanStep) ([]*ExecutionRequest, error) {
 			insertPoints, err := findInsertionPoints(
 				field.InsertionPoint,
-				step.SelectionSet,
+				answerSelectionSet(step),
 				queryResult,
 				[][]string{insertionPoint},
 				!common.IsRootObjectName(field.ParentType),
@@ -117,4 +118,17 @@ func findNextExecutionRequestsAsync(
 	}
 
 	return res, nil
+}
+
+// answerSelectionSet is the selection set the (unwrapped) answer of a step corresponds to: a step on
+// a Node type is sent as node(id: $id) { ... }, and its answer is taken from below that node key, so
+// the wrapper must not take part in the look-up of response keys (a client may alias a field as node)
+func answerSelectionSet(step *planner.QueryPlanStep) ast.SelectionSet {
+	if common.IsRootObjectName(step.ParentType) || len(step.SelectionSet) != 1 {
+		return step.SelectionSet
+	}
+	if f, ok := step.SelectionSet[0].(*ast.Field); ok && f.Name == common.NodeFieldName && f.Alias == "" {
+		return f.SelectionSet
+	}
+	return step.SelectionSet
 }
